@@ -124,12 +124,7 @@ __attribute__((noinline)) void h_r_seed(void) {
   double x[12]; ref_seed(seed, x);
   for (int k = 0; k < 12; ++k) { __verif_check(g._xdbl[k] == x[k]); __verif_check(g._xdbl[k] >= 0. && g._xdbl[k] < 1.); }
   __verif_check(g._carry == 0. && g._ir == 11 && g._jr == 7 && g._ir_old == 0 && g._pr == 397);
-  // only the low 31 bits count (seeds equal modulo 2^31 give equal states), and seed 0 is seed 1
-  if (seed != 0 && (seed & 0x7FFFFFFFL) != 0) {
-    alignas(8) unsigned char buf2[sizeof(RandomGenerator)]; RandomGenerator &g2 = *reinterpret_cast<RandomGenerator *>(buf2);
-    g2.set_seed(seed & 0x7FFFFFFFL);
-    for (int k = 0; k < 12; ++k) __verif_check(g2._xdbl[k] == g._xdbl[k]);
-  }
+  // only the low 31 bits count: the reference initialisation above is a function of (seed & 0x7FFFFFFF), so equality with it already says so; seed 0 is seed 1:
   if (seed == 0) {
     alignas(8) unsigned char buf2[sizeof(RandomGenerator)]; RandomGenerator &g2 = *reinterpret_cast<RandomGenerator *>(buf2);
     g2.set_seed(1);
